@@ -12,6 +12,11 @@ structure DSt where
   cfg : Cfg
   s : St := init
   cancelled : Nat → Bool := fun _ => false
+  destroyed : List Nat := []
+  /-- reference-counted variant: outcome of the atomic decrement+delete, reported at the thread's last step -/
+  delFlag : Nat → Option Bool := fun _ => none
+  /-- a stale callback has removed a live instance's map entry in this case -/
+  staleUsed : Bool := false
 
 def act (d : DSt) (a : Act) : DSt :=
   match step d.cfg d.s a with
@@ -20,14 +25,19 @@ def act (d : DSt) (a : Act) : DSt :=
 
 def threads : List Nat := [1, 2, 3, 4, 5, 6]
 
+def acts18 (d : DSt) (as : List Act) : DSt := as.foldl act d
+
 def render (d : DSt) : String :=
   let s := d.s
+  -- two live instances that sit on different wait slots come from the dropped slot; otherwise
+  -- from a close callback that unmapped a live instance
+  let finding := if d.staleUsed then "C18-stale-callback-unmaps-live-instance" else "C18-slot-dropped-while-in-use"
   let cur := match s.slotMap with | some k => toString k | none => "-"
   let slots := (List.range s.nextSlot).map fun k =>
     let sl := s.slots k
     s!"{k}:{if sl.owner.isSome then 1 else 0}:{sl.count}"
-  s!"live={s.live.length} mapped={if s.swampMap.isSome then 1 else 0} cur={cur} slots=[{" ".intercalate slots}]" ++
-    (if s.live.length > 1 then "\t#F:C18-slot-dropped-while-in-use" else "")
+  s!"live={s.live.length} made={s.nextInst} mapped={if s.swampMap.isSome then 1 else 0} cur={cur} slots=[{" ".intercalate slots}]" ++
+    (if s.live.length > 1 then "\t#F:" ++ finding else "")
 
 /-- the waiter of slot `σ`, if any -/
 def waiterOf (d : DSt) (σ : Nat) : Option Nat :=
@@ -54,9 +64,13 @@ def goThread (d : DSt) (t : Nat) : DSt × String :=
     else if sl.owner.isSome && d.cancelled t then
       -- its Broadcast wakes the slot's waiter, which counts itself again and waits again
       let d := act d (.giveUp t)
+      -- (reference-counted variant: giving up releases the count at once)
+      let d := if d.cfg.refCounted then act d (.leaveDec t) else d
       let d := threads.foldl (fun d y =>
         if (d.s.thr y).pc == .woken && (d.s.thr y).slot == x.slot then
-          (if d.cancelled y then act d (.giveUp y) else act d (.enter y))
+          (if d.cancelled y then
+            (let d := act d (.giveUp y); if d.cfg.refCounted then act d (.leaveDec y) else d)
+           else act d (.enter y))
         else d) d
       (d, "gaveup")
     else
@@ -79,10 +93,19 @@ def goThread (d : DSt) (t : Nat) : DSt × String :=
   | .left1 =>
     -- after `giveUp` in the reference-counted variant the thread is at `left1` too, but the
     -- harness has no stop there (the current code returns at once)
-    (act d (.leaveDec t), "dec")
+    if d.cfg.refCounted then
+      let before := d.s.slotMap
+      let d := act d (.leaveDec t)
+      let deleted := before.isSome && d.s.slotMap.isNone
+      ({ d with delFlag := fun y => if y = t then some deleted else d.delFlag y }, "dec")
+    else (act d (.leaveDec t), "dec")
   | .left2 =>
     let zero := (d.s.slots x.slot).count == 0
     (act d (.leaveDel t), if zero then "deleted" else "kept")
+  | .done =>
+    match d.delFlag t with
+    | some b => ({ d with delFlag := fun y => if y = t then none else d.delFlag y }, if b then "deleted" else "kept")
+    | none => (d, "skip")
   | _ => (d, "skip")
 
 def stepLine (d : DSt) (line : String) : DSt × String :=
@@ -95,24 +118,60 @@ def stepLine (d : DSt) (line : String) : DSt × String :=
       if t < 1 || t > 6 then (d, "bad-op") else
       let (d', msg) := goThread d t
       if msg == "skip" || msg == "busy" then (d', msg) else (d', s!"go {t} {msg} {render d'}")
+  | ["burst", ns] =>
+    match ns.toNat? with
+    | none => (d, "skip")
+    | some n =>
+      if n < 2 || n > 64 || d.s.nextSlot != 0 || d.s.nextInst != 0 then (d, "skip") else
+      -- whatever the interleaving, `summon_mutex` leaves one instance; one sequential schedule for the state
+      let d := (List.range n).foldl (fun d i =>
+        let t := 1 + i % 6
+        let d := { d with s := { d.s with thr := fun y => if y = t then ⟨.idle, 0⟩ else d.s.thr y } }
+        let d := acts18 d [.lookup t, .enter t, .bodyGet t, .bodyCreate t, .bodyStore t, .leaveUnready t, .leaveDec t, .leaveDel t]
+        d) d
+      let slotleft := if d.cfg.refCounted then d.s.slotMap.isSome else true
+      (d, s!"burst {n} ok errors=0 made={d.s.nextInst} mapped={d.s.swampMap.isSome} slotleft={slotleft}" ++
+          (if d.s.live.length > 1 then "\t#F:C18-slot-dropped-while-in-use" else ""))
   | ["cancel", ts] =>
     match ts.toNat? with
     | none => (d, "skip")
     | some t =>
       let pc := (d.s.thr t).pc
-      if pc == .idle || pc == .done || d.cancelled t then (d, "skip") else
+      if pc == .idle || (pc == .done && (d.delFlag t).isNone) || d.cancelled t then (d, "skip") else
       let d := { d with cancelled := fun x => if x = t then true else d.cancelled x }
       (d, s!"cancel {t} {render d}")
   | ["close"] =>
-    if d.s.swampMap.isSome then
-      let d := act d .closeCallback
+    match d.s.swampMap with
+    | some i =>
+      let d := act d (.closeInst i)
       (d, s!"close ok {render d}")
-    else (d, s!"close none {render d}")
+    | none => (d, s!"close none {render d}")
+  | ["closeold", ks] =>
+    match ks.toNat? with
+    | none => (d, "skip")
+    | some k =>
+      if !(d.s.published.contains k) then (d, "skip") else
+      if d.s.live.contains k then
+        let d := act d (.closeInst k)
+        (d, s!"closeold {k} ok {render d}")
+      else (d, s!"closeold {k} noop {render d}")
+  | ["destroyold", ks] =>
+    match ks.toNat? with
+    | none => (d, "skip")
+    | some k =>
+      if !(d.s.published.contains k) then (d, "skip") else
+      if d.destroyed.contains k then (d, s!"destroyold {k} noop {render d}") else
+      let d := { d with destroyed := k :: d.destroyed }
+      -- Destroy on a live instance closes it; on a dead one only its close callback runs again
+      let mappedOther := d.s.swampMap.isSome && d.s.swampMap != some k
+      let d := if d.s.live.contains k then act d (.closeInst k) else act d (.staleCallback k)
+      let d := if mappedOther && d.s.swampMap.isNone then { d with staleUsed := true } else d
+      (d, s!"destroyold {k} ok {render d}")
   | _ => (d, "bad-op")
 
 def run (args : List String) : IO UInt32 := do
   let kv := parseArgs args
-  lineLoop stepLine { cfg := { refCounted := arg kv "refCounted" == "yes" } }
+  lineLoop stepLine { cfg := { refCounted := arg kv "refCounted" == "yes", callbackCompares := arg kv "callbackCompares" == "yes" } }
   return 0
 
 end Driver.C18
